@@ -10,7 +10,9 @@ from mirsym.interp import Explorer, Interp
 from mirsym.values import *
 from mirsym.summaries import S
 from progsym import str_const
+from mirsym.summaries_fmt import render, Opt
 
+TAG = b"t"
 INPUT = "é\nüxcdefgh".encode()          # a two-byte character before a pair on a terminated line and on the last, unterminated line
 BOUND = [0, 2, 3, 5, 6, 7, 8, 9, 10, 11, 12]
 
@@ -185,6 +187,22 @@ def explore_view(args):
     return {"forest": forest, "view": view, "rows": rows, "queries": ex.nqueries, "solver_s": ex.solver_time, "fns": fn_evidence(fns)}
 
 
+def tree_text(nodes, i):
+    """what `{:#}` prints for a pair: rule(start, end) or rule(start, end, [children])"""
+    n = nodes[i]
+    if not n["children"]: return f"{n['rule']}({n['start']}, {n['end']})".encode()
+    return f"{n['rule']}({n['start']}, {n['end']}, [".encode() + b", ".join(tree_text(nodes, c) for c in n["children"]) + b"])"
+
+
+def debug_text(nodes, i, tagged):
+    """what `{:?}` prints for a pair (the tag of this check's trees is "t" on the last node)"""
+    from mirsym.summaries_fmt import _escape_debug_str
+    n = nodes[i]
+    txt = bytes(_escape_debug_str(list(INPUT[n["start"]:n["end"]]), '"'))
+    tag = b'node_tag: "%s", ' % TAG if i == tagged else b""
+    return (b"Pair { rule: %d, " % n["rule"]) + tag + b"span: Span { str: " + txt + (b", range: %d..%d }, inner: [" % (n["start"], n["end"])) + b", ".join(debug_text(nodes, c, tagged) for c in n["children"]) + b"] }"
+
+
 def explore_static(args):
     """per-tree observations that involve no interleaving: Pairs::single, as_str/concat, find_tagged, well-formedness of the queue"""
     P, forest = args
@@ -235,6 +253,32 @@ def explore_static(args):
                     errs.append(f"Pairs::single(node {nid}).{how}(): panic: {e}")
             tg = I.call("", "Pair::as_node_tag", [Ptr(Cell(p))])
             if (tg.idx == 1) != (nid == len(nodes) - 1): errs.append(f"as_node_tag of node {nid}")
+            # Display of the pair: `{}` is its text, `{:#}` the tree below it (the real impls run from MIR, format! interpreted)
+            for alt in (False, True):
+                try:
+                    got = bytes(render(I, Agg([Ptr(Cell(p))], "FmtArg:new_display:Pair"), Opt(0x60000020 | ((1 << 23) if alt else 0))))
+                    want = tree_text(nodes, nid) if alt else INPUT[n["start"]:n["end"]]
+                    if got != want: errs.append(f"Display ({'{:#}' if alt else '{}'}) of node {nid} = {got!r}, want {want!r}")
+                except Panic as e:
+                    errs.append(f"Display of node {nid}: panic: {e}")
+            try:
+                got = bytes(render(I, Agg([Ptr(Cell(p))], "FmtArg:new_debug:Pair"), Opt()))
+                if got != debug_text(nodes, nid, len(nodes) - 1): errs.append(f"Debug of node {nid} = {got!r}, want {debug_text(nodes, nid, len(nodes) - 1)!r}")
+            except Panic as e:
+                errs.append(f"Debug of node {nid}: panic: {e}")
+        try:
+            got = bytes(render(I, Agg([Ptr(Cell(clone_val(pairs)))], "FmtArg:new_debug:Pairs"), Opt()))
+            want = b"[" + b", ".join(debug_text(nodes, t, len(nodes) - 1) for t in tops) + b"]"
+            if got != want: errs.append(f"Debug of the Pairs view = {got!r}, want {want!r}")
+        except Panic as e:
+            errs.append(f"Debug of the Pairs view: panic: {e}")
+        for alt in (False, True):
+            try:
+                got = bytes(render(I, Agg([Ptr(Cell(clone_val(pairs)))], "FmtArg:new_display:Pairs"), Opt(0x60000020 | ((1 << 23) if alt else 0))))
+                want = b"[" + b", ".join((tree_text(nodes, t) if alt else INPUT[nodes[t]["start"]:nodes[t]["end"]]) for t in tops) + b"]"
+                if got != want: errs.append(f"Display ({'{:#}' if alt else '{}'}) of the Pairs view = {got!r}, want {want!r}")
+            except Panic as e:
+                errs.append(f"Display of the Pairs view: panic: {e}")
         fns.update(I.fn_used)
         return None
 
@@ -282,7 +326,7 @@ def run(ctx):
     cov = {"states": paths, "transitions": paths * K, "traces_validated_against_impl": 0, "samples": samples, "exhaustive": True,
            "functions_encoded": sorted(set(f for r in res + res2 for f in r["fns"])),
            "bounds": f"every ordered forest with <= {nmax} nodes and height <= 3, built through the real PairsBuilder::{{new,rule,rule_with,tag,build}} over the input {INPUT!r} (one character per leaf, including a newline and a two-byte character); "
-                     f"every interleaving of {K} operations next/next_back/len(+size_hint)/clone/peek on Pairs, FlatPairs and Tokens chosen by symbolic selectors; per pair: as_rule, as_str, as_span, line_col, into_inner().len(), as_node_tag; Pairs::single, Pairs::as_str",
+                     f"every interleaving of {K} operations next/next_back/len(+size_hint)/clone/peek on Pairs, FlatPairs and Tokens chosen by symbolic selectors; per pair: as_rule, as_str, as_span, line_col, into_inner().len(), as_node_tag; Pairs::single, Pairs::as_str; Display ({} and {:#}) and Debug ({:?}) of every pair and of the top-level Pairs view against the text derived from the tree",
            "queries_discharged": sum(r["queries"] for r in res), "solver_time_s": round(sum(r["solver_s"] for r in res), 2), "events": events[:10],
            "explanation": "states = explored interleavings; exhaustive within the stated forest and history bounds"}
     write_evidence(ctx, "model_checking", cov,
